@@ -51,7 +51,7 @@ for mid, runs in rows:
 md += ['', '%d of %d changes are reported by at least one registered check.' % (det, len(rows)), '',
        'Not detected, and why (the contracts that would be needed are listed as NOT proved in the claims):', '',
        '* C01_B, C16_A: completeness of the sliding-window slice scan (fillShardInfos, rolling CRC) is not under contract (C16 not applicable).',
-       '* C04_D: PAR1 LoadParityData stops probing volume names after eight consecutive missing ones; every call it still makes satisfies its contract. That every volume beside the index is looked for is a completeness statement about the search (the PAR1 analogue of C06), not stated by any contract.',
+       '* C04_D (PAR1 volume search stops after eight missing names) was not detected until LoadParityData got the read-count clause: on success every candidate volume name has been read exactly once.',
        '* C06_A, C06_B: order/layout independence of readFile / LoadParityData is a relational property (C06 not applicable); the changed code still satisfies every single-call contract (no panic, well-formed result or error).',
        '* C18_A (early `return nil, nil` in par2 Decoder.Repair) was not detected until the contract `success with nothing written only if no file was flagged` was added (DESIGN 9.10); C17_C, C03_C, C18_C were missed by the first version of the checks they were written against and led to the order obligations, the prelude pruning and the new-return rule (DESIGN 9.6).',
        '* C05_A, C17_A are not caught by the C05/C17 checks themselves but by C12/C07 (the partition obligations), which is where the defect lives.', '',
